@@ -51,6 +51,21 @@ class SelectedSet:
             self._set.discard(replace)
         self._set.add(selected)
 
+    def discard(self, selected: SelectedMailbox) -> None:
+        """Remove a selected mailbox object, and every fork of it, from the
+        set. This must be called when a session deselects the mailbox: the
+        objects may stay referenced for a while (e.g. by the last response)
+        and must not be returned by :meth:`.any_selected` any more.
+
+        Args:
+            selected: The selected mailbox object that is no longer in use.
+
+        """
+        session_flags = selected.session_flags
+        for other in list(self._set):
+            if other.session_flags is session_flags:
+                self._set.discard(other)
+
     @property
     def any_selected(self) -> SelectedMailbox | None:
         """A single, random object in the set of selected mailbox objects.
@@ -368,6 +383,15 @@ class SelectedMailbox:
     def set_deleted(self) -> None:
         """Marks the selected mailbox as having been deleted."""
         self._is_deleted = True
+
+    def close(self) -> None:
+        """Called when the session deselects the mailbox: this object and its
+        forks will no longer be assigned the ``\\Recent`` flag of new
+        messages.
+
+        """
+        if self._selected_set is not None:
+            self._selected_set.discard(self)
 
     def silence(self, seq_set: SequenceSet, flag_set: Set[Flag],
                 flag_op: FlagOp) -> None:
